@@ -38,6 +38,7 @@ def _write(prop, out, payload):
 
 
 def _search_state_tree(here, out, depth=4):
+    depth = int(os.environ.get("VX_REPLAY_DEPTH", depth))
     exe, err = _build("state_tree", here, out)
     if exe is None:
         return None, "replay harness does not build against the current tree: " + err[-400:]
@@ -52,7 +53,7 @@ def _search_state_tree(here, out, depth=4):
     note = p.stdout.strip()[-300:] + p.stderr.strip()[-300:]
     # completeness clause on the unambiguous family (leaf children of pairwise distinct shape, common ones in the same order)
     try:
-        p = subprocess.run([exe, "survivors-search", "4"], capture_output=True, text=True, timeout=600)
+        p = subprocess.run([exe, "survivors-search", str(depth)], capture_output=True, text=True, timeout=600)
     except subprocess.TimeoutExpired:
         return None, note + "; survivors search timeout"
     m = re.search(r"FOUND old=(\S+) new=(\S+) clause=(.*?) tried=(\d+)", p.stdout)
@@ -62,7 +63,7 @@ def _search_state_tree(here, out, depth=4):
     note += "; " + p.stdout.strip()[-200:]
     # ... with identically shaped siblings, children only removed or only added ("up to exchange among identically shaped siblings")
     try:
-        p = subprocess.run([exe, "survivors-search-dups", "4"], capture_output=True, text=True, timeout=600)
+        p = subprocess.run([exe, "survivors-search-dups", str(depth)], capture_output=True, text=True, timeout=600)
     except subprocess.TimeoutExpired:
         return None, note + "; duplicate-siblings search timeout"
     m = re.search(r"FOUND old=(\S+) new=(\S+) clause=(.*?) tried=(\d+)", p.stdout)
@@ -72,7 +73,7 @@ def _search_state_tree(here, out, depth=4):
     note += "; " + p.stdout.strip()[-200:]
     # ... and on the second family (similar function-call siblings; a prefix removed, fresh leaves appended)
     try:
-        p = subprocess.run([exe, "survivors-search-similar", "4"], capture_output=True, text=True, timeout=600)
+        p = subprocess.run([exe, "survivors-search-similar", str(depth)], capture_output=True, text=True, timeout=600)
     except subprocess.TimeoutExpired:
         return None, note + "; similar-siblings search timeout"
     m = re.search(r"FOUND old=(\S+) new=(\S+) clause=(.*?) tried=(\d+)", p.stdout)
